@@ -917,6 +917,9 @@ func (p *balloons) deleteBalloon(bln *Balloon) {
 	if _, err := p.cpuAllocator.ReleaseCpus(&bln.Cpus, bln.Cpus.Size(), bln.Def.AllocatorPriority.Value().Option()); err != nil {
 		log.Warnf("failed to release CPUs %q of balloon %s[%d]: %v", bln.Cpus, bln.Def.Name, bln.Instance, err)
 	}
+	// CPUs of the deleted balloon (a balloon keeps its MinCpus CPUs until
+	// it is deleted) are idle now: share them with balloons that use idle CPUs.
+	p.updatePinning(p.shareIdleCpus(bln.Cpus, cpuset.New())...)
 }
 
 // freeBalloon clears a balloon and deletes it if allowed.
